@@ -13,7 +13,7 @@ LEVEL_TEXT = ("Theorems in coq/Props/C19.v about the executable model coq/Bind/B
               "specification coq/Bind/Spec.v: for every bindable (schema type, Go type) pair and every well-formed Go value the "
               "view succeeds and equals the value's denotation; every tree that fits the type is assembled into a well-formed "
               "Go value that reads back as that tree; Marshal/Unmarshal through an order-preserving codec reproduces the data "
-              "(what a well-formed value denotes always fits its type); with the registry reused every call of every history of "
+              "(what a well-formed value denotes always fits its type), also through codecs that canonicalise map entry order, instantiated with the concrete dag-cbor model (only premise: within the decoder limits); with the registry reused every call of every history of "
               "Wrap/Prototype/Marshal/Unmarshal equals the same call on the initial state and never hits the duplicate-name "
               "panic, which the pinned setting refutes. The model is tied to /repo by running the extracted model on the "
               "records of a Go harness that binds 53 declared Go types (explicit and inferred schemas) and schema-inferred Go "
@@ -21,7 +21,7 @@ LEVEL_TEXT = ("Theorems in coq/Props/C19.v about the executable model coq/Bind/B
 LEVEL_NOTE = ("Trusted: Coq kernel, extraction, the Go harness (reflection-based renderer/parser/generator of Go values, typed "
               "dumper) and the OCaml driver. float32 conversion is a parameter of the model instantiated by OCaml's conversion. "
               "Not modelled: custom converters, stringjoin/stringprefix/listpairs representations, recursive schemas, "
-              "non-String map keys. Key-sorting codecs are covered by the correspondence run, not by the round-trip theorem.")
+              "non-String map keys. dag-json has no Coq round-trip theorem to instantiate the order-canonicalising theorem with; it is covered by the correspondence run.")
 TRUSTED = ["float64->float32->float64 conversion: parameter narrow32 of the model (no hypothesis needed by the theorems); the driver supplies OCaml Int32.float_of_bits/bits_of_float",
            "Go field lookup by strings.Title(schema field name): the model matches struct fields by position; the harness types follow the naming convention",
            "dag-cbor / dag-json map key order is applied by the driver with sort_maps (codec correctness is C02-C04)"]
